@@ -101,6 +101,8 @@ func (e routeEngine) Corpus() []Case {
 			{Ops: []string{"new 8 5 -", regOp(1, nil, "/about[.html]", false), regOp(2, nil, "/blog/list[/all]", false), regOp(3, nil, "/blog[/{id}]", false), q(g, "/about.html"), q(g, "/about"), q(g, "/blog/list/all"), q(g, "/blog"), "ckeys", q(g, "/about"), "ckeys"}},
 			// handlers that overwrite their own Params must not poison the cache (miss request and hit request)
 			{Ops: []string{"new 8 5 -", regOpMut(1, nil, "/files/{name}.{ext}"), regOpMut(2, nil, "/{a}"), sv(g, "/files/readme.txt"), sv(g, "/files/readme.txt"), q(g, "/files/readme.txt"), sv(g, "/x"), sv(g, "/x"), sv(g, "/x"), q(g, "/x")}},
+			// a cache hit must run the route's middleware too
+			{Ops: []string{"new 8 5 -", fmt.Sprintf("reg 1 - %s 3", hx("/u/{id}")), sv(g, "/u/1"), sv(g, "/u/1"), sv(g, "/u/1"), sv("HEAD", "/u/1"), sv("HEAD", "/u/1")}},
 			// capacity 0
 			{Ops: []string{"new 8 0 -", regOp(1, nil, "/users/{id}", false), q(g, "/users/1"), q(g, "/users/1"), "ckeys"}},
 			// F6: caching router without routes
@@ -408,6 +410,8 @@ func (e routeEngine) Gen(r *Rand, tier string) Case {
 		}
 		if r.Chance(1, 5) {
 			ops = append(ops, regOpMut(g.id, ms, pat))
+		} else if r.Chance(1, 3) { // a route middleware (3), possibly with a handler that scribbles into Params (4)
+			ops = append(ops, fmt.Sprintf("reg %d %s %s %d", g.id, hxList(ms), hx(pat), r.PickInt([]int{3, 3, 4})))
 		} else {
 			ops = append(ops, regOp(g.id, ms, pat, false))
 		}
@@ -673,10 +677,18 @@ func (e routeEngine) Run(ops []string) (ans []string, oracle []string) {
 			path := mustUnhx(f[3])
 			var h rux.HandlerFunc
 			if f[4] != "1" {
-				h = routeHandler(id, f[4] == "2")
+				h = routeHandler(id, f[4] == "2" || f[4] == "4")
+			}
+			withMw := f[4] == "3" || f[4] == "4"
+			mw := func(c *rux.Context) {
+				c.WriteString(fmt.Sprintf("M%d;", id))
+				c.Next()
 			}
 			a = guarded(func() string {
 				rt := rux.NewNamedRoute(fmt.Sprintf("r%d", id), path, h, methods...)
+				if withMw {
+					rt.Use(mw)
+				}
 				im.r.AddRoute(rt)
 				im.accepted++
 				start, _, regex, names := rt.VerifRouteInfo()
@@ -707,7 +719,11 @@ func (e routeEngine) Run(ops []string) (ans []string, oracle []string) {
 			}
 			if im.twin != nil {
 				guarded(func() string {
-					im.twin.AddRoute(rux.NewNamedRoute(fmt.Sprintf("r%d", id), path, h, methods...))
+					trt := rux.NewNamedRoute(fmt.Sprintf("r%d", id), path, h, methods...)
+					if withMw {
+						trt.Use(mw)
+					}
+					im.twin.AddRoute(trt)
 					return ""
 				})
 			}
